@@ -191,6 +191,8 @@ struct Bed {
     /// same route on a listener with `h2_max_concurrent_streams = 2`
     front_limit2: SocketAddr,
     stop_backend: Arc<AtomicBool>,
+    /// scripted HTTP/2 (prior knowledge, clear text) backend behind `/h2b` on `front`; accepted by the case itself
+    h2_backend: MockBackend,
 }
 
 /// H1 backend: answers every request with 200, except paths starting with
@@ -238,7 +240,13 @@ fn start_bed() -> Result<Bed, String> {
         .add_https_listener_with(|b| b.h2_max_concurrent_streams = Some(2), |_| {})
         .map_err(|e| e.to_string())?;
     worker.add_https_route(front_limit2, "localhost", "/", "c1", addr, false).map_err(|e| e.to_string())?;
-    Ok(Bed { worker, front, front_limit2, stop_backend: stop })
+    let h2_backend = MockBackend::listen().map_err(|e| e.to_string())?;
+    let mut c2 = cluster("c2");
+    c2.http2 = Some(true);
+    worker.add_cluster(c2).map_err(|e| e.to_string())?;
+    worker.add_https_frontend(front, "localhost", "/h2b", "c2").map_err(|e| e.to_string())?;
+    worker.add_backend("c2", "c2-0", h2_backend.addr).map_err(|e| e.to_string())?;
+    Ok(Bed { worker, front, front_limit2, stop_backend: stop, h2_backend })
 }
 
 fn good_request(c: &mut Client, sid: u32) -> Result<(), String> {
@@ -1668,6 +1676,244 @@ fn run_request_case(bed: &Bed, case: &ReqCase, model: &str) -> Verdict {
     v
 }
 
+// ------------------------------------------------ backend-peer family ----
+
+/// sozu as HTTP/2 *client*: a cluster with `http2 = true` whose backend is
+/// scripted here (prior-knowledge h2c). A front request makes sozu open the
+/// backend connection; the backend then misbehaves. Judged: what sozu sends to
+/// the backend (GOAWAY code per the Lean decoder / flood model / RFC 9113 5.1),
+/// that the front request is answered (never left hanging), that the worker
+/// and the front connection go on.
+struct BackendCase {
+    name: String,
+    /// frames the backend sends after it has seen sozu's request HEADERS (stream id patched in: 0xFFFF_FFF1 = the request's stream)
+    send: Vec<u8>,
+    /// `decode 16384 <hex>` / `fframe` ops for the model; empty: `rfc`
+    model_ops: Vec<String>,
+    rfc: &'static str,
+}
+
+fn parse_frames(buf: &[u8]) -> Vec<Fr> {
+    let mut out = vec![];
+    let mut i = 0;
+    while buf.len() >= i + 9 {
+        let l = ((buf[i] as usize) << 16) | ((buf[i + 1] as usize) << 8) | buf[i + 2] as usize;
+        if buf.len() < i + 9 + l {
+            break;
+        }
+        out.push(Fr { ty: buf[i + 3], flags: buf[i + 4], sid: u32::from_be_bytes([buf[i + 5], buf[i + 6], buf[i + 7], buf[i + 8]]) & 0x7fff_ffff, payload: buf[i + 9..i + 9 + l].to_vec() });
+        i += 9 + l;
+    }
+    out
+}
+
+fn backend_cases() -> Vec<BackendCase> {
+    let mut v = vec![];
+    let wire = |name: &str, f: Vec<u8>| BackendCase { name: format!("backend:{name}"), model_ops: vec![format!("decode 16384 {}", hex(&f[..f.len().min(64)]))], send: f, rfc: "" };
+    // wire-level: the decoder's verdict is the GOAWAY code
+    v.push(wire("oversize_frame_header", { let mut f = frame(0x42, 0, 0, &[]); f[..3].copy_from_slice(&[0, 0x40, 1]); f }));
+    v.push(wire("settings_len_5", frame(4, 0, 0, &[0, 3, 0, 0, 0])));
+    v.push(wire("ping_len_7", frame(6, 0, 0, &[0; 7])));
+    v.push(wire("window_update_len_3", frame(8, 0, 0, &[0, 0, 1])));
+    v.push(wire("push_promise", frame(5, 0x4, 1, &[0, 0, 0, 2, 0x88])));
+    v.push(wire("data_on_stream_0", frame(0, 0, 0, b"x")));
+    v.push(wire("rst_stream_len_5", frame(3, 0, 1, &[0, 0, 0, 8, 0])));
+    v.push(wire("goaway_len_4", frame(7, 0, 0, &[0, 0, 0, 0])));
+    // stream states, client position (RFC 9113 5.1: frames on idle streams are PROTOCOL_ERROR)
+    v.push(BackendCase { name: "backend:data_on_idle_stream".into(), send: frame(0, 0, 99, b"x"), model_ops: vec![], rfc: "cerr 1" });
+    v.push(BackendCase { name: "backend:window_update_on_idle_stream".into(), send: frame(8, 0, 99, &[0, 0, 0, 1]), model_ops: vec![], rfc: "cerr 1" });
+    v.push(BackendCase { name: "backend:rst_stream_on_idle_stream".into(), send: frame(3, 0, 99, &8u32.to_be_bytes()), model_ops: vec![], rfc: "cerr 1" });
+    v.push(BackendCase { name: "backend:zero_increment_stream0".into(), send: frame(8, 0, 0, &[0, 0, 0, 0]), model_ops: vec![], rfc: "cerr 1" });
+    v.push(BackendCase { name: "backend:window_overflow_stream0".into(), send: [frame(8, 0, 0, &[0x7f, 0xff, 0xff, 0xff]), frame(8, 0, 0, &[0x7f, 0xff, 0xff, 0xff])].concat(), model_ops: vec![], rfc: "cerr 3" });
+    v.push(BackendCase { name: "backend:stray_continuation".into(), send: frame(9, 4, 1, &[]), model_ops: vec![], rfc: "cerr 1" });
+    // floods: trip point from the flood model (the backend's SETTINGS is the first counted frame)
+    let ping = frame(6, 0, 0, &[3; 8]);
+    v.push(BackendCase { name: "backend:ping_flood".into(), send: (0..130).flat_map(|_| ping.clone()).collect(), model_ops: (0..130).map(|_| format!("fframe 0 {}", hex(&ping))).collect(), rfc: "" });
+    let set = frame(4, 0, 0, &[]);
+    v.push(BackendCase { name: "backend:settings_flood".into(), send: (0..70).flat_map(|_| set.clone()).collect(), model_ops: (0..70).map(|_| format!("fframe 0 {}", hex(&set))).collect(), rfc: "" });
+    // well-behaved answers (premise of the family) and a graceful GOAWAY that refuses the request
+    v.push(BackendCase { name: "backend:answers_200".into(), send: frame(1, 0x5, 0xFFFF_FFF1, &[0x88]), model_ops: vec![], rfc: "handled" });
+    v.push(BackendCase { name: "backend:goaway_refusing_the_request".into(), send: frame(7, 0, 0, &[0, 0, 0, 0, 0, 0, 0, 0]), model_ops: vec![], rfc: "handled" });
+    v
+}
+
+fn run_backend_case(bed: &Bed, case: &BackendCase, model: &[String]) -> Verdict {
+    let mut v = Verdict { fails: vec![], known: vec![], tags: vec![], observed: String::new() };
+    let fail = |v: &mut Verdict, class: &str, detail: String| v.fails.push((class.to_string(), format!("{}: {detail}", case.name)));
+    let t = Duration::from_millis(1500);
+    // drop connections left over from an earlier case
+    while bed.h2_backend.try_accept().is_some() {}
+    let mut c = match Client::connect(bed.front).and_then(|mut c| c.handshake().map(|_| c)) {
+        Ok(c) => c,
+        Err(e) => {
+            fail(&mut v, "handshake-failed", e);
+            return v;
+        }
+    };
+    c.send(&frame(1, 0x5, 1, &request_block(false, "/h2b/x")));
+    let mut b = match bed.h2_backend.accept(t) {
+        Ok(b) => b,
+        Err(e) => {
+            // set-up, not a verdict
+            v.tags.push(format!("backend:inconclusive-no-backend-connection:{e}"));
+            return v;
+        }
+    };
+    // sozu's preface and SETTINGS, our SETTINGS, then its request HEADERS
+    let _ = b.write_all(&frame(4, 0, 0, &[]), t);
+    let t0 = Instant::now();
+    let mut req_sid = None;
+    while t0.elapsed() < t && req_sid.is_none() {
+        b.read_some(Duration::from_millis(50));
+        if b.received.len() >= 24 {
+            req_sid = parse_frames(&b.received[24..]).iter().find(|f| f.ty == 1).map(|f| f.sid);
+        }
+    }
+    let Some(req_sid) = req_sid else {
+        v.tags.push("backend:inconclusive-no-request-from-sozu".into());
+        return v;
+    };
+    if !b.received.starts_with(PREFACE) {
+        fail(&mut v, "backend-connection-without-preface", hex(&b.received[..b.received.len().min(24)]));
+    }
+    let before = parse_frames(&b.received[24..]).len();
+    let _ = b.write_all(&frame(4, 1, 0, &[]), t); // acknowledge sozu's SETTINGS
+    // the misbehaviour, then a PING
+    let mut send = case.send.clone();
+    for i in 0..send.len().saturating_sub(8) {
+        if send[i + 5..i + 9] == [0xff, 0xff, 0xff, 0xf1] {
+            send[i + 5..i + 9].copy_from_slice(&req_sid.to_be_bytes());
+        }
+    }
+    let sync = [0xB0, 1, 2, 3, 4, 5, 6, 7];
+    let flood_trip = model.iter().position(|l| l.starts_with("viol 11")).map(|p| p + 1);
+    if case.name.ends_with("_flood") {
+        // exactly to the model's trip point and nothing behind it: bytes left unread when sozu
+        // closes would turn the close into a reset and the GOAWAY could be lost with it
+        if let Some(tp) = flood_trip {
+            let unit = case.send.len() / case.model_ops.len().max(1);
+            send.truncate(unit * tp);
+        }
+    } else {
+        send.extend(frame(6, 0, 0, &sync));
+    }
+    let _ = b.write_all(&send, t);
+    let t0 = Instant::now();
+    let mut closed = false;
+    loop {
+        let fs = parse_frames(&b.received[24..]);
+        if fs[before.min(fs.len())..].iter().any(|f| f.ty == 7 || (f.ty == 6 && f.flags & 1 != 0 && f.payload == sync)) || t0.elapsed() > t {
+            break;
+        }
+        if matches!(b.read_some(Duration::from_millis(50)), ReadEnd::Closed | ReadEnd::Reset) {
+            closed = true;
+            break;
+        }
+    }
+    let fs = parse_frames(&b.received[24..]);
+    let new = &fs[before.min(fs.len())..];
+    let goaway = new.iter().find(|f| f.ty == 7 && f.payload.len() >= 8).map(|f| u32::from_be_bytes([f.payload[4], f.payload[5], f.payload[6], f.payload[7]]));
+    let ping_acks = new.iter().filter(|f| f.ty == 6 && f.flags & 1 != 0).count();
+    let observed = match goaway {
+        Some(g) => format!("cerr {g}"),
+        None if new.iter().any(|f| f.ty == 6 && f.flags & 1 != 0 && f.payload == sync) => "handled".to_string(),
+        None if closed => "closed".to_string(),
+        None => "silent".to_string(),
+    };
+    // expectation
+    let expected = if !case.rfc.is_empty() {
+        case.rfc.to_string()
+    } else if case.name.ends_with("_flood") {
+        if model.iter().any(|l| l.starts_with("viol 11")) { "cerr 11".to_string() } else { "handled".to_string() }
+    } else {
+        model.first().map(|m| if let Some(c) = m.strip_prefix("err ") { format!("cerr {c}") } else { "handled".to_string() }).unwrap_or_default()
+    };
+    v.observed = format!("to the backend: {observed} ({ping_acks} ping acks)");
+    v.tags.push(format!("{}={observed}", case.name));
+    if case.name == "backend:goaway_refusing_the_request" {
+        // sozu may simply close after a GOAWAY from its peer
+        if goaway.is_some_and(|g| g != 0) {
+            fail(&mut v, "backend-peer-wrong-answer", format!("a graceful GOAWAY from the backend was answered with {observed}"));
+        }
+    } else if observed != expected {
+        let class = if observed == "silent" { "backend-connection-wedged" } else { "backend-peer-wrong-answer" };
+        fail(&mut v, class, format!("expected `{expected}`, observed `{observed}`"));
+    } else if case.name.ends_with("_flood") {
+        // acknowledged frames before the trip, as the model counts them (the backend's SETTINGS came first)
+        let trip = model.iter().position(|l| l.starts_with("viol 11")).map(|p| p + 1);
+        if let (Some(t), true) = (trip, case.name.contains("ping")) {
+            if ping_acks != t - 1 {
+                fail(&mut v, "flood-trip-point-differs-from-model", format!("model trips at frame {t}, observed {ping_acks} acks"));
+            }
+        }
+    }
+    if goaway.is_some() {
+        // released
+        let t0 = Instant::now();
+        while !closed && t0.elapsed() < t {
+            closed = matches!(b.read_some(Duration::from_millis(50)), ReadEnd::Closed | ReadEnd::Reset);
+        }
+        if !closed {
+            fail(&mut v, "connection-not-released-after-goaway", "backend connection still open".into());
+        }
+    }
+    drop(b);
+    // a second backend connection (retry) is answered properly, so that a retried request can complete
+    if let Ok(mut b2) = bed.h2_backend.accept(Duration::from_millis(if case.name == "backend:answers_200" { 1 } else { 300 })) {
+        let _ = b2.write_all(&frame(4, 0, 0, &[]), t);
+        let t0 = Instant::now();
+        while t0.elapsed() < t {
+            b2.read_some(Duration::from_millis(50));
+            if b2.received.len() >= 24 {
+                if let Some(f) = parse_frames(&b2.received[24..]).iter().find(|f| f.ty == 1) {
+                    let _ = b2.write_all(&[frame(4, 1, 0, &[]), frame(1, 0x5, f.sid, &[0x88])].concat(), t);
+                    break;
+                }
+            }
+        }
+        v.tags.push("backend:request-retried-on-a-new-connection".into());
+        std::thread::sleep(Duration::from_millis(30));
+    }
+    // ---- the front side: the request must be answered, one way or the other
+    let end = c.read_until(Duration::from_millis(2500), |fs| fs.iter().any(|f| f.sid == 1 && (f.ty == 1 || f.ty == 3)) || fs.iter().any(|f| f.ty == 7));
+    // a GOAWAY(NO_ERROR) next to the answer is a graceful close of the front connection: allowed
+    if c.goaway() == Some(0) && !c.frames.iter().any(|f| f.sid == 1 && (f.ty == 1 || f.ty == 3)) {
+        c.read_until(Duration::from_millis(500), |fs| fs.iter().any(|f| f.sid == 1 && (f.ty == 1 || f.ty == 3)));
+    }
+    let graceful = c.goaway() == Some(0);
+    let front = if c.goaway().is_some_and(|g| g != 0) {
+        format!("goaway {:?}", c.goaway())
+    } else if let Some((_, code)) = c.rst_codes().iter().find(|(s, _)| *s == 1) {
+        format!("rst {code}")
+    } else if c.frames.iter().any(|f| f.ty == 1 && f.sid == 1) {
+        if c.got_200(1) { "200".to_string() } else { "error-response".to_string() }
+    } else {
+        format!("unanswered({end:?})")
+    };
+    v.tags.push(format!("backend:front={front}{}", if graceful { "+goaway0" } else { "" }));
+    v.observed.push_str(&format!("; front: {front}"));
+    if front.starts_with("unanswered") || front.starts_with("goaway") {
+        fail(&mut v, "front-request-not-answered-after-backend-misbehaviour", front.clone());
+    }
+    if case.name == "backend:answers_200" && front != "200" {
+        fail(&mut v, "backend-peer-wrong-answer", format!("a correct backend response was not relayed: {front}"));
+    }
+    // the front connection and another cluster keep working
+    if graceful {
+        // the front connection is being closed gracefully: new work goes to a new connection
+        match Client::connect(bed.front).and_then(|mut c2| c2.handshake().map(|_| c2)).and_then(|mut c2| good_request(&mut c2, 1)) {
+            Ok(()) => {}
+            Err(e) => fail(&mut v, "healthy-stream-not-served-after-backend-misbehaviour", format!("new connection: {e}")),
+        }
+    } else if !front.starts_with("goaway") {
+        c.send(&frame(1, 0x5, 3, &request_block(false, "/")));
+        if c.read_until(CASE_DEADLINE, |fs| stream_ended(fs, 3) || fs.iter().any(|f| f.ty == 7)) != End::Matched || !c.got_200(3) {
+            fail(&mut v, "healthy-stream-not-served-after-backend-misbehaviour", format!("goaway {:?} rst {:?}", c.goaway(), c.rst_codes()));
+        }
+    }
+    v
+}
+
 // -------------------------------------------------------------------- main ----
 
 struct Verdict {
@@ -2003,6 +2249,48 @@ fn main() {
             }
         }
     }
+    // ---- backend-peer family: sozu as the HTTP/2 client of a misbehaving backend
+    {
+        let bcases: Vec<BackendCase> = backend_cases().into_iter().filter(|c| !replaying || replay_names.iter().any(|n| *n == c.name)).collect();
+        let mut binput = String::new();
+        for (i, c) in bcases.iter().enumerate() {
+            binput.push_str(&format!("#case {i}\nnew\nfnew 100 100 50 100 100 20 100 10000 50 500 65536\nf settings 0\n"));
+            for o in &c.model_ops {
+                binput.push_str(o);
+                binput.push('\n');
+            }
+        }
+        let mut bmodel: Vec<Vec<String>> = vec![];
+        let mut skip = 0;
+        for l in run_model(&args.driver, &binput) {
+            if l.starts_with("#case ") {
+                bmodel.push(vec![]);
+                skip = 3;
+            } else if skip > 0 {
+                skip -= 1;
+            } else if let Some(last) = bmodel.last_mut() {
+                last.push(l);
+            }
+        }
+        for (i, c) in bcases.iter().enumerate() {
+            let v = run_backend_case(&bed, c, bmodel.get(i).map(|x| x.as_slice()).unwrap_or(&[]));
+            evaluations += 1;
+            nontrivial += 1;
+            for t in &v.tags {
+                *dist.entry(t.clone()).or_insert(0) += 1;
+            }
+            *dist.entry("kind:backend".into()).or_insert(0) += 1;
+            if i < 2 {
+                samples.push(json!({"case": c.name, "observed": v.observed}));
+            }
+            for (class, detail) in &v.fails {
+                push_fail(&mut failures, class, detail, vec![format!("h2conn {}", c.name)]);
+            }
+        }
+        if !bed.worker.alive().is_alive() {
+            push_fail(&mut failures, "worker-died-or-wedged", "after the backend-peer family", vec![]);
+        }
+    }
     // ---- request-level family: header budget, content-length, PRIORITY, header-block interleaving
     {
         let rcases: Vec<ReqCase> = request_cases().into_iter().filter(|c| !replaying || replay_names.iter().any(|n| *n == c.name)).collect();
@@ -2182,7 +2470,7 @@ fn finish(args: &Args, evaluations: u64, nontrivial: u64, failures: &[Value], kn
         "seed": args.seed,
         "evaluations": evaluations,
         "distinct_nontrivial": nontrivial,
-        "rule": "black box: one real worker (HTTPS listener, H1 backend), one TLS+h2 client connection per case: a complete random/corner frame after the settings exchange followed by a PING (verdict: the Lean decoder's: err c => GOAWAY(c), exact on stream 0 and for oversize, any of PROTOCOL/STREAM_CLOSED/FRAME_SIZE or a stream error when stream state is consulted first; ok => answered, never silence), PING/SETTINGS/WINDOW_UPDATE/CONTINUATION floods with the trip point predicted by the Lean flood model (acknowledged-frame count compared), empty-DATA and rapid-reset floods, zero increment, window overflow, stray CONTINUATION, 120 unanswered requests vs the advertised 100-stream limit, first-SETTINGS payloads vs the model's first_settings; flood-variant family: every flood kind in its wire-level variants (empty DATA unpadded / PADDED pad 0 / pad 5 / pad 255 / mixed, on an open and on a closed stream; PING plain / odd flags / ACK / mixed; SETTINGS empty / known entries / unknown ids / ACK / mixed; WINDOW_UPDATE stream 0 with small increments, reserved bit, flags; CONTINUATION with empty fragments after an empty or 2-byte HEADERS fragment; WINDOW_UPDATE / RST_STREAM / DATA floods on a closed stream (glitch counter); PRIORITY / PRIORITY_UPDATE / unknown-type floods, which no counter looks at) - the trip point is computed by the Lean model (decoded frame -> frameEvents -> detector) and the connection is driven once to one frame below it (must be served) and once exactly to it (must get GOAWAY(ENHANCE_YOUR_CALM) and be closed); request-level family: header-field count at 127/128/129/204 fields and decoded header-list size through HPACK indexed references (15/17/20 x 4033 bytes) vs the Lean headerBudget; content-length 5/0/absent against DATA bodies (exact, padded, too much in the first/second frame, too little at END_STREAM, empty END_STREAM, trailers) vs the Lean contentLengthRun; PRIORITY with self-dependency on a known / look-ahead idle / far idle / closed stream and in a HEADERS frame vs priorityVerdict; PRIORITY_UPDATE for stream 0; DATA / PING / HEADERS / CONTINUATION on another stream / WINDOW_UPDATE / unknown type inside an open header block (RFC 9113 6.2: PROTOCOL_ERROR); HPACK garbage (COMPRESSION_ERROR); after a stream error a new request on the same connection must be served; receive-limits family: after peer SETTINGS (its MAX_FRAME_SIZE 16384 / 65536 / 2^24-1, INITIAL_WINDOW_SIZE 1 / 2^31-1, MAX_CONCURRENT_STREAMS 1 / 1000, HEADER_TABLE_SIZE, MAX_HEADER_LIST_SIZE, ENABLE_PUSH, all together with an unknown id; invalid values judged by the Lean handleSettings) frames at and above the limits sozu advertises - unknown-type and DATA frames of 16384 / 16385 / 70000 bytes sent in full, 3 full DATA frames inside the advertised window, 3 requests on the limit-2 listener, a plain request - must get the verdict of the Lean decoder (cdecode with the local bound) / history model, then a PING ACK or the GOAWAY; history family: frame sequences (new requests that the backend never answers, DATA with/without END_STREAM, WINDOW_UPDATE, RST_STREAM, PRIORITY, HEADERS on used/refused ids) on one connection of the limit-2 listener, a PING after every frame, the answer to each frame compared with the Lean history model connStep; stream-state family on a listener with h2_max_concurrent_streams=2: DATA/HEADERS/WINDOW_UPDATE/RST_STREAM/PRIORITY/CONTINUATION on a stream id that is idle (above every used id), implicitly closed (below), closed by END_STREAM (equal to / below the last id), closed by the peer's RST_STREAM, refused by the stream limit, refused while draining after SoftStop's GOAWAY (own worker), half-closed (remote), open - sent after the scene is established and in one batch with it, random odd ids in thorough; judged by an RFC 9113 5.1 table written here and compared exactly with the Lean table `headerVerdict`; afterwards a slot is freed and a new stream on the same connection must be answered 200; after a GOAWAY the connection must be closed; worker.alive(), a long-lived good connection and a fresh probe connection must keep being served",
+        "rule": "black box: one real worker (HTTPS listener, H1 backend), one TLS+h2 client connection per case: a complete random/corner frame after the settings exchange followed by a PING (verdict: the Lean decoder's: err c => GOAWAY(c), exact on stream 0 and for oversize, any of PROTOCOL/STREAM_CLOSED/FRAME_SIZE or a stream error when stream state is consulted first; ok => answered, never silence), PING/SETTINGS/WINDOW_UPDATE/CONTINUATION floods with the trip point predicted by the Lean flood model (acknowledged-frame count compared), empty-DATA and rapid-reset floods, zero increment, window overflow, stray CONTINUATION, 120 unanswered requests vs the advertised 100-stream limit, first-SETTINGS payloads vs the model's first_settings; flood-variant family: every flood kind in its wire-level variants (empty DATA unpadded / PADDED pad 0 / pad 5 / pad 255 / mixed, on an open and on a closed stream; PING plain / odd flags / ACK / mixed; SETTINGS empty / known entries / unknown ids / ACK / mixed; WINDOW_UPDATE stream 0 with small increments, reserved bit, flags; CONTINUATION with empty fragments after an empty or 2-byte HEADERS fragment; WINDOW_UPDATE / RST_STREAM / DATA floods on a closed stream (glitch counter); PRIORITY / PRIORITY_UPDATE / unknown-type floods, which no counter looks at) - the trip point is computed by the Lean model (decoded frame -> frameEvents -> detector) and the connection is driven once to one frame below it (must be served) and once exactly to it (must get GOAWAY(ENHANCE_YOUR_CALM) and be closed); backend-peer family (sozu as HTTP/2 client of a cluster with http2=true, scripted prior-knowledge backend): after sozu's request HEADERS the backend sends a malformed frame (oversize, SETTINGS/PING/WINDOW_UPDATE/RST_STREAM/GOAWAY of a wrong length, PUSH_PROMISE, DATA on stream 0: GOAWAY code of the Lean decoder), frames on an idle stream, zero increment, window overflow, stray CONTINUATION (RFC), PING and SETTINGS floods (trip point of the Lean flood model), a correct 200, a graceful GOAWAY refusing the request; the front request must be answered (never hang), the front connection and another cluster keep being served; request-level family: header-field count at 127/128/129/204 fields and decoded header-list size through HPACK indexed references (15/17/20 x 4033 bytes) vs the Lean headerBudget; content-length 5/0/absent against DATA bodies (exact, padded, too much in the first/second frame, too little at END_STREAM, empty END_STREAM, trailers) vs the Lean contentLengthRun; PRIORITY with self-dependency on a known / look-ahead idle / far idle / closed stream and in a HEADERS frame vs priorityVerdict; PRIORITY_UPDATE for stream 0; DATA / PING / HEADERS / CONTINUATION on another stream / WINDOW_UPDATE / unknown type inside an open header block (RFC 9113 6.2: PROTOCOL_ERROR); HPACK garbage (COMPRESSION_ERROR); after a stream error a new request on the same connection must be served; receive-limits family: after peer SETTINGS (its MAX_FRAME_SIZE 16384 / 65536 / 2^24-1, INITIAL_WINDOW_SIZE 1 / 2^31-1, MAX_CONCURRENT_STREAMS 1 / 1000, HEADER_TABLE_SIZE, MAX_HEADER_LIST_SIZE, ENABLE_PUSH, all together with an unknown id; invalid values judged by the Lean handleSettings) frames at and above the limits sozu advertises - unknown-type and DATA frames of 16384 / 16385 / 70000 bytes sent in full, 3 full DATA frames inside the advertised window, 3 requests on the limit-2 listener, a plain request - must get the verdict of the Lean decoder (cdecode with the local bound) / history model, then a PING ACK or the GOAWAY; history family: frame sequences (new requests that the backend never answers, DATA with/without END_STREAM, WINDOW_UPDATE, RST_STREAM, PRIORITY, HEADERS on used/refused ids) on one connection of the limit-2 listener, a PING after every frame, the answer to each frame compared with the Lean history model connStep; stream-state family on a listener with h2_max_concurrent_streams=2: DATA/HEADERS/WINDOW_UPDATE/RST_STREAM/PRIORITY/CONTINUATION on a stream id that is idle (above every used id), implicitly closed (below), closed by END_STREAM (equal to / below the last id), closed by the peer's RST_STREAM, refused by the stream limit, refused while draining after SoftStop's GOAWAY (own worker), half-closed (remote), open - sent after the scene is established and in one batch with it, random odd ids in thorough; judged by an RFC 9113 5.1 table written here and compared exactly with the Lean table `headerVerdict`; afterwards a slot is freed and a new stream on the same connection must be answered 200; after a GOAWAY the connection must be closed; worker.alive(), a long-lived good connection and a fresh probe connection must keep being served",
         "samples": samples,
         "traces_validated_against_impl": evaluations - failures.len() as u64,
         "disagreements_checked": evaluations,
